@@ -379,6 +379,20 @@ func (r *runner) failf(format string, a ...any) {
 }
 
 func (r *runner) inconclusive(format string, a ...any) {
+	// every caller has waited opTimeout for the library to react to something
+	// that was delivered to it: a serve loop that is parked in a channel or
+	// mutex operation inside the library (not waiting for the peer's next
+	// bytes) all that time, and still is a moment later, is blocked for good
+	select {
+	case <-r.sv.Done():
+	default:
+		if b := wire.BlockedMatching("handleInputStream"); len(b) > 0 {
+			time.Sleep(300 * time.Millisecond)
+			if b2 := wire.BlockedMatching("handleInputStream"); len(b2) > 0 {
+				r.failf("%s; the serve loop is parked inside the library:\n%s", fmt.Sprintf(format, a...), strings.Join(b2, "\n\n"))
+			}
+		}
+	}
 	if r.res.inconclusive == "" {
 		r.res.inconclusive = fmt.Sprintf(format, a...)
 	}
